@@ -240,6 +240,65 @@ example : (Row.mk "builtins" "__import__" .none .needsArgs).usable = false := by
 example : (Row.mk "IntType" "bit_length" .wrongArity .none).usable = false := by decide
 example : (Row.mk "builtins" "max" .none .element).usable = true := by decide
 
+/-! ### determinism across analyses: no attribute store reaches process-wide state -/
+
+theorem addAttr_of_not_writes {row : TypeClassRow} (h : row.owner.writesClassLevel = false) (f : String)
+    (cf : ClassFields) : addAttr row f cf = cf := by
+  simp [addAttr, h]
+
+theorem typeClassRows_own : ∀ row ∈ typeClassRows, row.owner.writesClassLevel = false := by
+  have h : typeClassRows.all (fun r => !r.owner.writesClassLevel) = true := by decide
+  intro row hrow
+  have := List.all_eq_true.1 h row hrow
+  simpa using this
+
+/-- For EVERY sequence of attribute stores on instances of the (generated) Type classes, the class-level
+    `fields` dictionaries are what they were: no analysis can leave anything behind through `add_attr`. -/
+theorem c18_class_fields_stable (ops : List (TypeClassRow × String)) :
+    (∀ op ∈ ops, op.1 ∈ typeClassRows) → ∀ cf, runStores ops cf = cf := by
+  induction ops with
+  | nil => intro _ cf; rfl
+  | cons op ops ih =>
+    intro h cf
+    obtain ⟨row, f⟩ := op
+    have hrow : row ∈ typeClassRows := h (row, f) (List.mem_cons_self ..)
+    simp only [runStores]
+    rw [addAttr_of_not_writes (typeClassRows_own row hrow)]
+    exact ih (fun op hop => h op (List.mem_cons_of_mem _ hop)) cf
+
+theorem afterHistory_stable (v : StatefulVisitor)
+    (hv : ∀ cf code, ∀ op ∈ (v.run cf code).2, op.1 ∈ typeClassRows) (history : List Code) :
+    ∀ cf, afterHistory v history cf = cf := by
+  induction history with
+  | nil => intro cf; rfl
+  | cons c cs ih =>
+    intro cf
+    simp only [afterHistory, analyseWith]
+    rw [c18_class_fields_stable _ (hv cf c) cf]
+    exact ih cf
+
+/-- C18 "deterministically": whatever the visitor reads from the class-level dictionaries, and whatever
+    programs the same process analysed before (ANY history), a program's analysis is the analysis it gets
+    in a new process - as long as the visitor's attribute stores are on instances of the generated Type
+    classes (every one of which owns its `fields`). -/
+theorem c18_deterministic_across_analyses (v : StatefulVisitor)
+    (hv : ∀ cf code, ∀ op ∈ (v.run cf code).2, op.1 ∈ typeClassRows)
+    (cf0 : ClassFields) (history : List Code) (code : Code) :
+    (analyseWith v (afterHistory v history cf0) code).1 = (analyseWith v cf0 code).1 := by
+  rw [afterHistory_stable v hv history cf0]
+
+/-- The table hypothesis is what carries the theorem: with ONE class whose instances share the class-level
+    dictionary (the pinned tree's `LiteralStr`), a visitor that reads what it stored differs on the second run. -/
+theorem c18_shared_fields_counterexample :
+    ∃ (v : StatefulVisitor) (cf0 : ClassFields) (code : Code),
+      (analyseWith v (afterHistory v [code] cf0) code).1 ≠ (analyseWith v cf0 code).1 := by
+  refine ⟨⟨fun cf _ => (if cf = [("LiteralStr", [])] then .ok [⟨"incompatible_types", 2⟩] else .ok [],
+                        [(⟨"LiteralStr", .classLevel⟩, "tag")])⟩, [("LiteralStr", [])], "name.tag += '!'", ?_⟩
+  simp [analyseWith, afterHistory, runStores, addAttr, FieldsOwner.writesClassLevel, insertField]
+
+-- non-vacuity: the generated table is not empty and contains the literal classes
+example : (typeClassRows.find? (·.name = "LiteralStr")).isSome = true := by decide
+
 -- non-vacuity of `Contained` and of the idempotence premise
 example : Contained (fun _ => .visitFail ⟨"RecursionError", true, false⟩ []) := by
   intro c; exact ⟨rfl, rfl⟩
